@@ -18,6 +18,10 @@ from __future__ import annotations
 import ast
 import collections
 import math as _math
+import bisect as _bisect
+import decimal as _decimal
+import fractions as _fractions
+import operator as _operator
 import io as _io
 import functools as _functools
 import itertools as _itertools
@@ -451,6 +455,18 @@ class Interp:
                 k: getattr(_itertools, k) for k in dir(_itertools)
                 if not k.startswith("_")}),
             "types": StubModule("types", {"FunctionType": FUNCTION_TYPE}),
+            # pure value libraries of the standard library run as they are
+            "decimal": StubModule("decimal", {
+                k: getattr(_decimal, k) for k in dir(_decimal)
+                if not k.startswith("_")}),
+            "fractions": StubModule("fractions", {
+                "Fraction": _fractions.Fraction}),
+            "operator": StubModule("operator", {
+                k: getattr(_operator, k) for k in dir(_operator)
+                if not k.startswith("_")}),
+            "bisect": StubModule("bisect", {
+                k: getattr(_bisect, k) for k in dir(_bisect)
+                if not k.startswith("_")}),
             "enum": StubModule("enum", {"Enum": "ENUM_BASE"}),
         }
         self.builtins = {
@@ -643,7 +659,9 @@ class Interp:
                             _io.StringIO, _io.BytesIO,
                             _Uuid,
                             type(iter([])),
-                            type(iter("")), type(iter(())), float)) \
+                            type(iter("")), type(iter(())), float,
+                            _decimal.Decimal, _fractions.Fraction,
+                            complex)) \
                 or type(obj).__name__.endswith("iterator") \
                 or isinstance(obj, type):
             if attr.startswith("__") and attr not in ("__name__", "__len__"):
